@@ -24,7 +24,7 @@ PROPS = {
                 claim='the specified links of the chain: decoding of characters/escapes/hex and ranges (unsigned, inclusive), the automaton run loop (longest prefix, slot-0 winner, stops only at end or missing transition), expr::match = whole-string recognition of term 0 without forming a pointer from the failure sentinel',
                 assumptions=['language equality over unbounded strings is not expressible as a contract; the composition operators (cat/alt/star/plus/opt/rep by in-place merging) are not verified and are unsound (finding D9)',
                              'well-formedness of the library-built automata (every transition none or < size) rests on the builder, not verified: [L-wf]', 'string_view_to_subset and the dfa_builder primitives are not under contract']),
-    'C05': dict(units=['state_analyzer'],
+    'C05': dict(units=['state_analyzer', 'terms'],
                 claim="solve_conflict decides reduce iff rule precedence > term precedence or equal with the rule left-associative (from the statement); the rule's last term is its right-most terminal; rule precedence = explicit [n] if non-zero else the last term's else 0; rule associativity = the last term's",
                 assumptions=['conflict detection inside transitions() (which entry gets the verdict, has_sr_conflict) is not under contract', L_KNUTH, GLUE]),
     'C07': dict(units=['dfa', 'driver', 'buffers'], static=[SF.buffers_static],
@@ -38,10 +38,10 @@ PROPS = {
                 claim='dfa_size_analyzer arithmetic (prim/add/rep: {0} keeps the slice, {n} adds n-1 copies) under an explicit no-wrap precondition; cvector preconditions (size < N) as call-site obligations; stack/capacity of the driver; add_situation capacity preconditions',
                 assumptions=['analyser vs builder lock-step over the same parse is not mechanised; the builder (rep/cat/alt/...) is not under contract', 'sufficiency of the default table caps is a counting (pigeonhole) argument, not mechanised',
                              'nothing in the header establishes the no-wrap precondition of dfa_size_analyzer::rep (finding D12)']),
-    'C02': dict(units=['driver', 'stdex', 'dfa'],
+    'C02': dict(units=['driver', 'stdex', 'dfa', 'terms'],
                 claim='driver-level half of bottom-up evaluation: which rule functor is invoked, with which stack slice, in which order, once; shift applies the term functor of the shifted term to the pending lexeme; success returns the bottom value',
                 assumptions=[L_PATH, L_IDS, TABLE_WF, R13, 'that the popped slice is the handle of the unique derivation is the LR(1) theorem (C01), not mechanised']),
-    'C04': dict(units=['driver', 'utils', 'dfa', 'buffers'], static=[SF.buffers_static],
+    'C04': dict(units=['driver', 'utils', 'dfa', 'buffers', 'terms'], static=[SF.buffers_static],
                 claim='whitespace skipping is exactly the documented sets; the lexer is asked once at the skipped position with the whole rest of the buffer; the lexeme is exactly [current_it, current_it+len); a failure result yields one Unexpected character report',
                 assumptions=[LEXER, 'longest match/first-listed priority of the automaton itself: unit dfa (dfa_match/run); the union automaton built by merging is not verified (finding D10)']),
     'C06': dict(units=['driver', 'stdex', 'utils', 'regex_lexer', 'dfa'], all=['driver', 'stdex'],
@@ -51,7 +51,7 @@ PROPS = {
     'C08': dict(units=['driver', 'state_analyzer'],
                 claim='step relation of the driver loop written from the documented recovery algorithm: enter (one message, nothing discarded), pop (one state and its value), shift of the error symbol, input discarding, exits',
                 assumptions=[L_PATH, L_IDS, TABLE_WF, LEXER]),
-    'C09': dict(units=['driver'],
+    'C09': dict(units=['driver', 'terms'],
                 claim='without error rules and not verbose: no event before the failure, exactly one (Unexpected character | Syntax error) on failure with position and payload, none on success',
                 assumptions=[L_PATH, TABLE_WF, LEXER, 'that the term reported is the first that cannot continue a valid prefix is the immediate-error-detection property of canonical LR(1) tables (C01), not mechanised']),
     'C10': dict(units=['driver'],
@@ -66,11 +66,11 @@ PROPS = {
     'C16': dict(units=['driver'], all=['driver'], static=[SF.c16_static],
                 claim='every contract states the same state change for verbose on and off (verbose only adds events); trace payloads (Shift to, Reduced using rule, Go to, Recognized) equal the action performed',
                 assumptions=['stream type: both no_stream and std::ostream lower to the ghost event sink (R10); text formatting is not verified', LEXER]),
-    'C17': dict(units=['utils', 'regex_lexer'],
+    'C17': dict(units=['utils', 'regex_lexer', 'terms'],
                 claim='regex_lexer::match and its helpers read only the pattern array (terminator included) and refuse raw non-printable bytes, dangling backslashes and unterminated sets; find_str never returns a wrong or uninitialized index',
                 assumptions=['patterns are NUL-terminated arrays (cstring_buffer keeps the terminator at end())',
                              'grammar-level rejections (unbalanced group, leading quantifier, empty alternative, {}) rest on C01 applied to the regex grammar: not mechanised']),
-    'C18': dict(units=['driver', 'regex_lexer'],
+    'C18': dict(units=['driver', 'regex_lexer', 'terms'],
                 claim='get_current_term under the weakest custom-lexer contract: asked once per needed term after the same whitespace skipping, index used unchanged, exactly len bytes pending, default result => Unexpected character',
-                assumptions=[LEXER, 'custom_term value typing is C++ template machinery outside the verified text']),
+                assumptions=[LEXER, 'custom_term constructor and accessors are under contract (unit terms); its value typing (internal_value_type, value_type_t) is C++ template machinery outside the verified text']),
 }
